@@ -452,6 +452,7 @@ class Contract:
         self.consts = set(consts)
         self.defaults = defaults or {}
         self.ufuncs = {}
+        self.local_kinds = {}     # declared kinds of locals initialised with an empty literal, e.g. {"ret": "list[list[int]]"}
 
 
 def parse_kind(s, records=None):
@@ -788,6 +789,11 @@ class Executor:
 
     def assign(self, t, v, st):
         if isinstance(t, ast.Name):
+            if t.id in self.c.local_kinds and isinstance(v, SeqV):
+                k = parse_kind(self.c.local_kinds[t.id], self.records)
+                n0 = z3.simplify(to_z3(v.len))
+                if isinstance(k, ListK) and z3.is_int_value(n0) and n0.as_long() == 0 and repr(k.elem) != repr(v.elem):
+                    v = SeqV(z3.IntVal(0), z3.K(z3.IntSort(), self.default_of(k.elem)), k.elem)
             # lists assigned from an immutable snapshot become heap objects (python lists are mutable)
             if isinstance(v, (SeqV, SetV)):
                 v = st.alloc(v)
@@ -1255,6 +1261,8 @@ class Executor:
             return z3.BoolVal(False)
         if k is OptIntK:
             return OptInt.none
+        if isinstance(k, ListK):
+            return k.dt.mk(z3.IntVal(0), z3.K(z3.IntSort(), self.default_of(k.elem)))
         return fresh("dflt", k.sort())
 
     def e_UnaryOp(self, e, st):
